@@ -205,8 +205,15 @@ func (p *loginPeer) encode(e absPkg) []byte {
 				w.u8(len(p.nonce))
 				w.raw(p.nonce)
 			default:
-				w.u32(uint32(len(p.nonce)))
-				w.raw(p.nonce)
+				nonce := p.nonce
+				if e.A == "smallkey" {
+					// a well-formed RSA key that cannot carry this nonce together with the 32-byte session key
+					// (RSA-OAEP/SHA-1: key bytes - 42): unusable, whatever the password's length
+					nonce = make([]byte, p.scn.KeyBits/8-42-32+1+p.rng.Intn(8))
+					p.rng.Read(nonce)
+				}
+				w.u32(uint32(len(nonce)))
+				w.raw(nonce)
 			}
 		}
 		return w.b
@@ -821,6 +828,11 @@ func randSecret(rng *mrand.Rand, n int) string {
 		} else {
 			b[i] = byte('!' + rng.Intn(90))
 		}
+	}
+	// NUL bytes are bytes of a secret like any other (inside, in front, at the end) - in secrets long enough
+	// that they cannot be mistaken for the zero padding of the login record when the written bytes are scanned
+	if n >= 6 && rng.Intn(3) == 0 {
+		b[[]int{0, n - 1, 1 + rng.Intn(n-2)}[rng.Intn(3)]] = 0
 	}
 	return string(b)
 }
